@@ -1,5 +1,10 @@
-// Group `difflines`: D-b `line_changes`, `fold_deleted_lines`, `clear_or_fold_deleted_lines`,
-// D-a `line_changes_from_diff` (src/diff_parser.rs). Properties: C01 (D-b), C15 (D-a), C04 (safety).
+// Group `difflines_kf`: known finding KF1 (property C01). A copy of the D-b units of difflines.rs in
+// which the two clauses that difflines.rs proves only under the carve-out `kf1_carve_out` are stated
+// WITHOUT it. This group is EXPECTED TO FAIL, exactly on
+//     Db.post.deletion_new_numbering      Db.post.strictly_sorted
+// (pure deletions are recorded with the OLD-file line number; diff_parser.rs `fold_deleted_lines`).
+// Anything else failing here, or these two passing, is a change of status. Keep the rest of the
+// unit text identical to difflines.rs (only the two places marked KF1 differ).
 use vstd::prelude::*;
 use std::collections::{HashMap, VecDeque};
 use std::ops::Range;
@@ -61,7 +66,7 @@ fn line_diff(old: &str, new: &str) -> (r: Vec<Range<usize>>)
         file_numbered(*patched_file), // [Db.pre.lines_numbered]
     ensures
         file_wf(*patched_file) ==> exists|origin: Seq<Orig>| db_post(*patched_file, r@, origin), // [Db.post.entries]
-        file_wf(*patched_file) && kf1_carve_out(*patched_file) ==> strictly_sorted(r@), // [Db.post.strictly_sorted.carved]
+        file_wf(*patched_file) ==> strictly_sorted(r@), // [Db.post.strictly_sorted]   (KF1: no carve-out)
 //@edit rule=E16 find=<<let mut prev_line = None;>>
 let mut prev_line: Option<&Line> = None;
 //@edit rule=ghost before=<<for hunk in patched_file.hunks()>>
@@ -166,81 +171,14 @@ let ghost h = ith.index@ as int;
             assert(post_origin_increasing(origin)); // [Db.post.one_entry_per_origin_in_order]
             if carve {
                 lemma_carved_numbering(f, line_changes@, origin);
-                assert(post_deletion_new_numbering(f, line_changes@, origin)); // [Db.post.deletion_new_numbering.carved]
+            }
+            // checked in a scope of its own, so that the (failing) clause is not assumed afterwards
+            assert(true) by {
+                assert(post_deletion_new_numbering(f, line_changes@, origin)); // [Db.post.deletion_new_numbering]   (KF1: no carve-out)
             }
             assert(db_post(f, line_changes@, origin));
         }
     }
-//@end
-
-//@unit id=Da file=src/diff_parser.rs fn=line_changes_from_diff ret=r
-//@contract
-    ensures
-        r is Err <==> parse_patch(patch_diff@) is None, // [Da.post.err_iff_unparsable]
-        r matches Ok(m) ==> forall|i: int| 0 <= i < parse_patch(patch_diff@).unwrap().len() && !removed_file(#[trigger] parse_patch(patch_diff@).unwrap()[i]) // [Da.post.key_strip_once]
-            ==> m@.contains_key(path_of(strip_once(parse_patch(patch_diff@).unwrap()[i].target_file@))),
-        r matches Ok(m) ==> forall|key: PathBuf| #[trigger] m@.contains_key(key) // [Da.post.removed_files_contribute_nothing]
-            ==> exists|j: int| last_file_with_key(parse_patch(patch_diff@).unwrap(), parse_patch(patch_diff@).unwrap().len() as int, key, j),
-        r matches Ok(m) ==> forall|key: PathBuf, j: int| #[trigger] m@.contains_key(key) // [Da.post.value_is_line_changes]
-            && #[trigger] last_file_with_key(parse_patch(patch_diff@).unwrap(), parse_patch(patch_diff@).unwrap().len() as int, key, j)
-            ==> db_result(parse_patch(patch_diff@).unwrap()[j], m@[key]@),
-//@edit rule=E14 find=<<PatchSet::from_str(patch_diff)?>>
-verif_patchset_from_str(patch_diff)?
-//@edit rule=E16 find=<<let mut result = HashMap::new();>>
-let mut result: HashMap<PathBuf, Vec<LineChange>> = HashMap::new();
-//@edit rule=ghost before=<<for patched_file in patch_set>>
-    let ghost files = patch_set.spec_files();
-    broadcast use axiom_diff_pathbuf_key_model;
-//@edit rule=E14 find=<<for patched_file in patch_set {>>
-let mut it = verif_patchset_into_iter(patch_set);
-    let ghost mut n: int = 0;
-    loop
-        invariant
-            parse_patch(patch_diff@) == Some(files),
-            forall|i: int| 0 <= i < files.len() ==> file_numbered(#[trigger] files[i]),
-            0 <= n <= files.len(),
-            it.pending() == files.skip(n), // [Da.inv.cursor]
-            forall|i: int| 0 <= i < n && !removed_file(#[trigger] files[i]) ==> result@.contains_key(da_key(files[i])), // [Da.inv.key_strip_once]
-            forall|key: PathBuf| #[trigger] result@.contains_key(key) ==> exists|j: int| last_file_with_key(files, n, key, j), // [Da.inv.only_non_removed_files]
-            forall|key: PathBuf, j: int| #[trigger] result@.contains_key(key) && #[trigger] last_file_with_key(files, n, key, j) // [Da.inv.value_is_line_changes]
-                ==> db_result(files[j], result@[key]@),
-        ensures
-            n == files.len(), // [Da.inv.all_files_visited]
-        decreases files.len() - n, // [Da.term.files_loop]
-    {
-        match it.next() { Some(patched_file) => {
-        broadcast use axiom_diff_pathbuf_key_model;
-        let ghost result0 = result@;
-        let ghost n0 = n;
-        proof {
-            assert(files.skip(n)[0] == files[n]);
-            assert(files.skip(n).skip(1) =~= files.skip(n + 1));
-            n = n + 1;
-            if removed_file(files[n0]) {
-                // a removed file changes nothing: "last file with this key" is the same before and after it
-                assert forall|key: PathBuf, j: int| last_file_with_key(files, n0, key, j) implies last_file_with_key(files, n, key, j) by {}
-                assert forall|key: PathBuf, j: int| last_file_with_key(files, n, key, j) implies last_file_with_key(files, n0, key, j) by {}
-            }
-        }
-//@edit rule=E14 before=<<Ok(result)>>
-None => { break; } } }
-//@edit rule=ghost before=<<} None => { break; } } }>>
-        proof {
-            let key0 = da_key(files[n0]);
-            assert(result@ == result0.insert(key0, result@[key0])); // [Da.post.key_strip_once]
-            assert(last_file_with_key(files, n, key0, n0)); // [Da.post.removed_files_contribute_nothing]
-            assert forall|key: PathBuf, j: int| key != key0 && last_file_with_key(files, n0, key, j) implies last_file_with_key(files, n, key, j) by {}
-            assert forall|key: PathBuf, j: int| key != key0 && last_file_with_key(files, n, key, j) implies last_file_with_key(files, n0, key, j) by {}
-            assert forall|j: int| last_file_with_key(files, n, key0, j) implies j == n0 by {}
-        }
-//@edit rule=ghost before=<<Ok(result)>>
-    proof {
-        assert forall|key: PathBuf, j: int| last_file_with_key(files, n, key, j) implies last_file_with_key(files, files.len() as int, key, j) by {}
-        assert forall|key: PathBuf, j: int| last_file_with_key(files, files.len() as int, key, j) implies last_file_with_key(files, n, key, j) by {}
-    }
-//@chain rule=E13 find=<<.into()>> to=verif_str_into_pathbuf
-//@chain rule=E13 find=<<.strip_prefix(>> to=verif_diff_strip_prefix recvprefix=<<&>> optional=1
-//@chain rule=E13 find=<<.trim_start_matches(>> to=verif_diff_trim_start_matches recvprefix=<<&>> optional=1
 //@end
 
 } // verus!
